@@ -8,6 +8,8 @@ import (
 	"verif/harness/ref"
 
 	"github.com/cuteLittleDevil/go-jt808/attachment"
+	"github.com/cuteLittleDevil/go-jt808/protocol/jt808"
+	"github.com/cuteLittleDevil/go-jt808/protocol/model"
 	"pgregory.net/rapid"
 )
 
@@ -119,6 +121,37 @@ func checkC16(c c16Case, _ *kit.Collector) kit.Result {
 		if got[i].DataOffset != want[i].Off || got[i].DataLength != want[i].Len {
 			res.Err = kit.Fail("size %d received %v: range %d is (%d,%d), want (%d,%d)", c.Size, trim(c.Got), i, got[i].DataOffset, got[i].DataLength, want[i].Off, want[i].Len)
 			return res
+		}
+	}
+	if gaps <= 255 {
+		// the completion response built from these ranges, read back with the library's own 0x9212 parser
+		t1212 := &model.T0x1212{P0x9212RetransmitPacketList: got}
+		body, err := t1212.ReplyBody(&jt808.JTMessage{Header: &jt808.Header{ID: 0x1212}, Body: ref.Body1211([]byte("f"), 0, c.Size)})
+		if err != nil {
+			res.Err = kit.Fail("size %d received %v: T0x1212.ReplyBody: %v", c.Size, trim(c.Got), err)
+			return res
+		}
+		var rp model.P0x9212
+		if err := rp.Parse(&jt808.JTMessage{Header: &jt808.Header{ID: 0x9212}, Body: body}); err != nil {
+			res.Err = kit.Fail("size %d, %d missing ranges: the completion response %x... is rejected by P0x9212.Parse: %v", c.Size, gaps, body[:min(len(body), 16)], err)
+			return res
+		}
+		wantResult := byte(0)
+		if gaps > 0 {
+			wantResult = 1
+		}
+		if rp.UploadResult != wantResult || len(rp.P0x9212RetransmitPacketList) != gaps || int(rp.RetransmitPacketNumber) != gaps {
+			res.Err = kit.Fail("size %d, %d missing ranges: completion response says result=%d count=%d with %d ranges", c.Size, gaps, rp.UploadResult, rp.RetransmitPacketNumber, len(rp.P0x9212RetransmitPacketList))
+			return res
+		}
+		for i := range want {
+			if x := rp.P0x9212RetransmitPacketList[i]; x.DataOffset != want[i].Off || x.DataLength != want[i].Len {
+				res.Err = kit.Fail("size %d: completion response range %d is (%d,%d), want (%d,%d)", c.Size, i, x.DataOffset, x.DataLength, want[i].Off, want[i].Len)
+				return res
+			}
+		}
+		if gaps >= 32 {
+			res.Labels = append(res.Labels, "response_with>=32_ranges")
 		}
 	}
 	return res
